@@ -58,6 +58,7 @@ def new_pool():
         "P3": U(S[4]),
         "P4": U(S[6]),
         "P5": U(S[2]),
+        "P6": U("http://h.org:99999/p", encoded=True),   # taken as is: its authority is only parsed (and rejected) when first read
         "D": {"q": "2", "n": ["1", "2"]},
         "L": [("a", "1"), ("a", "2")],
         "MD": MultiDict([("q", "9"), ("z", "é")]),
@@ -113,6 +114,9 @@ def _ops():
     add("observe(P2)", lambda p: tuple(observe(p["P2"])) and "observed")
     add("P5.host", lambda p: p["P5"].host)
     add("P0.query", lambda p: list(p["P0"].query.items()))
+    add("P6.port", lambda p: p["P6"].port)
+    add("P6.user/password", lambda p: (p["P6"].user, p["P6"].password))
+    add("P6.raw_host", lambda p: p["P6"].raw_host)
     add("str/hash(P1)", lambda p: (str(p["P1"]), hash(p["P1"])))
     add("P0==P1, P0<P1", lambda p: (p["P0"] == p["P1"], p["P0"] < p["P1"], p["P4"] == impl.URL(""), hash(p["P0"]) == hash(p["P1"])))
     add("P2.human_repr()", lambda p: p["P2"].human_repr())
